@@ -1,4 +1,5 @@
 """C47  System-identification inertia parameters are always physical (DESIGN.md §5.C47)."""
+import concurrent.futures
 import json
 import math
 import os
@@ -477,11 +478,14 @@ def run(ctx):
                 extra.append("apply " + " ".join(hx(v) for v in th))
                 hist["apply"] = hist.get("apply", 0) + 1
             extra += ["frob 1 2", "fwd 0000000000000000", "chol zz", ""]
-        bad = ctx.differential("model(Float) vs numpy model_modifier.py [%d..%d)" % (done, done + n), [drv], impl,
-                               lines + extra, keyf=lambda l: l if len(l) > 40 else None, cmp=cmp)
-        # ---- S: oracle on the implementation alone (numpy eigenvalues computed in the harness on the real outputs)
+        # ---- S: oracle on the implementation alone (numpy eigenvalues computed in the harness on the real outputs);
+        # the oracle process runs concurrently with the differential pass (separate process, same inputs)
         olines = ["oracle" + l[3:] for l in lines]
-        rc, outs, err = ctx.run_lines(impl, olines)
+        with concurrent.futures.ThreadPoolExecutor(max_workers=1) as ex:
+            fut = ex.submit(ctx.run_lines, impl, olines)
+            ctx.differential("model(Float) vs numpy model_modifier.py [%d..%d)" % (done, done + n), [drv], impl,
+                             lines + extra, keyf=lambda l: l if len(l) > 40 else None, cmp=cmp)
+            rc, outs, err = fut.result()
         if rc != 0 or len(outs) != len(olines):
             ctx.oracle_failure("c47:harness-crash", "oracle pass crashed rc=%s" % rc, {"stderr": err[-500:]})
             break
